@@ -375,6 +375,8 @@ func genReturn(r rng, o genOpts) *icl.ReturnDetail {
 }
 
 // genFile builds a valid, canonical, built file of random shape.
+var genSeq int
+
 func genFile(r rng, o genOpts) (*icl.File, error) {
 	f := icl.NewFile()
 	fh := baseFileHeader()
@@ -385,6 +387,12 @@ func genFile(r rng, o genOpts) (*icl.File, error) {
 		clh := baseCashLetterHeader()
 		mutateRecord(r, "CashLetterHeader", clh, o.mutateP)
 		forward := r.Intn(3) > 0
+		if c == 0 && o.kind == 0 {
+			// the first cash letter of consecutive files alternates between forward and return items, so that a
+			// harness that generates only a few files still meets every record type
+			forward = genSeq%2 == 0
+			genSeq++
+		}
 		if o.kind == 1 {
 			forward = true
 		} else if o.kind == 2 {
